@@ -1339,7 +1339,25 @@ class GroupBy:
 
         if np.ndim(agg_func) == 0:
             func = getattr(self, func_name(agg_func))
-            return func(values, mask=mask, transform=transform, margins=margins)
+            options = dict(
+                mask=mask,
+                transform=transform,
+                margins=margins,
+                observed_only=observed_only,
+            )
+            defaults = dict(mask=None, transform=False, margins=False, observed_only=True)
+            accepted = signature(func).parameters
+            for name in list(options):
+                if name not in accepted:
+                    # e.g. median has no margins, size has no values
+                    if options[name] is not defaults[name]:
+                        raise TypeError(
+                            f"{func_name(agg_func)} does not support the option {name}"
+                        )
+                    del options[name]
+            if "values" in accepted:
+                return func(values, **options)
+            return func(**options)
 
         elif np.ndim(agg_func) == 1:
             if isinstance(values, ArrayType1D):
